@@ -17,7 +17,7 @@ func isLimitCheck(cs engine.CallSite, names ...string) bool {
 		return false
 	}
 	for _, n := range names {
-		if sc.Name() == n {
+		if engine.ShortName(sc) == n {
 			return true
 		}
 	}
@@ -99,7 +99,7 @@ func c17(c *Ctx) {
 			}
 			n++
 			key := fmtf("%s|tx.%s", c.name(f), g.method)
-			if why, ok := exempt[topFn(f).Name()]; ok {
+			if why, ok := exempt[engine.ShortName(topFn(f))]; ok {
 				R.Pass("R17.1", key, P.Pos(cs.Pos()), "exempt: "+why)
 				continue
 			}
@@ -160,7 +160,7 @@ func c17(c *Ctx) {
 					}
 				}
 			}
-			key := fmtf("%s|write-tx(%s)", c.name(f), clo.Name())
+			key := fmtf("%s|write-tx(%s)", c.name(f), engine.ShortName(clo))
 			R.Check(!loopBlocks[cs.Instr.Block()], "R17.3", key, P.Pos(cs.Pos()), "the growing write transaction is opened once, outside any loop",
 				"a write transaction that inserts limited rows is opened inside a loop: earlier iterations are committed when a later one is refused (partial effect of a refused multi-message operation)")
 		}
@@ -169,7 +169,7 @@ func c17(c *Ctx) {
 
 	k := c.errorsPropagated("R17.2", []string{"internal/state", "internal/backend"}, func(cs engine.CallSite) (string, bool) {
 		if isLimitCheck(cs, "CheckMailBoxCount", "CheckMailBoxMessageCount", "CheckUIDCount", "CheckUIDValidity") {
-			return "limits." + cs.Common().StaticCallee().Name(), true
+			return "limits." + engine.ShortName(cs.Common().StaticCallee()), true
 		}
 		return "", false
 	}, "a refused operation would go ahead anyway")
@@ -296,7 +296,7 @@ func (c *Ctx) limitChecked(f *ssa.Function, at ssa.Instruction, tx ssa.Value, ch
 		}
 		cnt++
 		arg := engine.ArgForParam(cs.Common(), f, pi)
-		if topFn(cs.Fn).Name() == "actionCreateRecoveredMessage" {
+		if engine.ShortName(topFn(cs.Fn)) == "actionCreateRecoveredMessage" {
 			continue
 		}
 		if ok, why := c.limitChecked(cs.Fn, cs.Instr, txOrigin(arg), missing, read, depth+1); !ok {
